@@ -52,6 +52,39 @@ class Mode:
         return 'Mode(%d)' % self.rank
 
 
+class Coarse:
+    """a record that is equal to every other revision of itself (same key) but ordered by its
+    priority: replacing it by an updated copy changes comparisons although old == new"""
+    __slots__ = ('key', 'priority')
+
+    def __init__(self, key, priority):
+        self.key, self.priority = key, priority
+
+    def __eq__(self, other):
+        return self.key == other.key if isinstance(other, Coarse) else NotImplemented
+
+    def __ne__(self, other):
+        return self.key != other.key if isinstance(other, Coarse) else NotImplemented
+
+    def __hash__(self):
+        return hash(('coarse', self.key))
+
+    def __lt__(self, other):
+        return self.priority < other.priority if isinstance(other, Coarse) else NotImplemented
+
+    def __le__(self, other):
+        return self.priority <= other.priority if isinstance(other, Coarse) else NotImplemented
+
+    def __gt__(self, other):
+        return self.priority > other.priority if isinstance(other, Coarse) else NotImplemented
+
+    def __ge__(self, other):
+        return self.priority >= other.priority if isinstance(other, Coarse) else NotImplemented
+
+    def __repr__(self):
+        return 'Coarse(%r, %r)' % (self.key, self.priority)
+
+
 def decode(value):
     """JSON encoding of values that are not numbers: {'set': [...]} and 'nan' (only partially
     ordered), {'mode': rank} (an object with a `value` attribute of its own)"""
@@ -59,6 +92,8 @@ def decode(value):
         return frozenset(value['set'])
     if isinstance(value, dict) and 'mode' in value:
         return Mode(value['mode'])
+    if isinstance(value, dict) and 'coarse' in value:
+        return Coarse(*value['coarse'])
     if value == 'nan':
         return float('nan')
     return value
